@@ -19,6 +19,8 @@ import (
 	"io"
 	"math/rand"
 	"strings"
+	"sync"
+	"sync/atomic"
 
 	"github.com/golang/snappy"
 	"github.com/hydraide/hydraide/app/core/compressor"
@@ -140,6 +142,29 @@ func genC24(rng *rand.Rand, tier string, w *bufio.Writer) {
 		d[len(d)-1] ^= 0x01
 		fmt.Fprintf(w, "dec snappy %s %s %s\n", hex.EncodeToString(p), hex.EncodeToString(d), c24Lib("snappy", d))
 	}
+	// a few large inputs (window / block-size / memory-limit boundaries of the libraries)
+	for _, a := range c24Algs {
+		for _, sz := range []int{70 << 10, 2 << 20} {
+			if tier != "thorough" && sz > 1<<20 && a != "zstd" && a != "snappy" {
+				continue
+			}
+			b := make([]byte, sz)
+			for i := range b {
+				b[i] = byte(i*7 + i/251)
+			}
+			fmt.Fprintf(w, "rt %s %s\n", a, hex.EncodeToString(b))
+		}
+	}
+	// concurrent use of ONE compressor object (goroutines x values)
+	for _, a := range c24Algs {
+		fmt.Fprintf(w, "rtc %s 6", a)
+		for j := 0; j < 6; j++ {
+			q := make([]byte, 300+j)
+			rng.Read(q)
+			fmt.Fprintf(w, " %s", hex.EncodeToString(q))
+		}
+		fmt.Fprintln(w)
+	}
 	for i := 0; i < n; i++ {
 		a := c24Algs[rng.Intn(4)]
 		p := c24Payload(rng, max)
@@ -229,11 +254,18 @@ func runC24(in *bufio.Scanner, w *bufio.Writer) {
 				}
 				ps, cs = append(ps, p), append(cs, c)
 			}
+			// every decompressed result is kept and compared only at the end: neither a compressed form
+			// nor an earlier decompressed result may be invalidated by later calls (buffer aliasing)
+			var ds [][]byte
 			for i := range cs {
 				d, err := cp.Decompress(cs[i])
 				if err != nil {
 					bad = "err"
-				} else if !bytes.Equal(d, ps[i]) {
+				}
+				ds = append(ds, d)
+			}
+			for i := range ds {
+				if bad == "" && !bytes.Equal(ds[i], ps[i]) {
 					bad = "diff"
 				}
 			}
@@ -241,6 +273,37 @@ func runC24(in *bufio.Scanner, w *bufio.Writer) {
 				bad = "ok"
 			}
 			fmt.Fprintln(w, bad)
+		case f[0] == "rtc" && len(f) >= 4:
+			cp := compressor.New(c24Type(f[1]))
+			var wg sync.WaitGroup
+			var bad atomic.Int32
+			for _, h := range f[3:] {
+				p, _ := hex.DecodeString(h)
+				for g := 0; g < 3; g++ {
+					wg.Add(1)
+					go func(p []byte) {
+						defer wg.Done()
+						for k := 0; k < 12; k++ {
+							c, err := cp.Compress(p)
+							if err != nil {
+								bad.Store(1)
+								return
+							}
+							d, err := cp.Decompress(c)
+							if err != nil || !bytes.Equal(d, p) {
+								bad.Store(1)
+								return
+							}
+						}
+					}(p)
+				}
+			}
+			wg.Wait()
+			if bad.Load() != 0 {
+				fmt.Fprintln(w, "diff")
+			} else {
+				fmt.Fprintln(w, "ok")
+			}
 		case f[0] == "dec" && len(f) == 5:
 			c, _ := hex.DecodeString(f[3])
 			func() {
